@@ -64,8 +64,9 @@ fn main() {
             let cnt: u64 = args[3].parse().unwrap();
             let mut out = std::io::BufWriter::new(std::fs::File::create(&args[4]).unwrap());
             for _ in 0..cnt {
-                let len = rng.below(7);
-                let scale = *rng.pick(&[3u64, 10, 1000, 1_000_000, 150_000_000]);
+                // mostly short lists; one case in five has up to 14 validators (limits that depend on the validator count)
+                let len = if rng.chance(1, 5) { 7 + rng.below(8) } else { rng.below(7) };
+                let scale = if len > 7 { *rng.pick(&[3u64, 10, 1000, 1_000_000, 50_000_000]) } else { *rng.pick(&[3u64, 10, 1000, 1_000_000, 150_000_000]) };
                 let d: Vec<u64> = (0..len).map(|_| if rng.chance(1, 6) { 0 } else { rng.below(scale) }).collect();
                 let tot: u64 = d.iter().sum();
                 let amt = match rng.below(6) {
@@ -79,7 +80,68 @@ fn main() {
                 n += 1;
             }
         }
+        "big" => {
+            // grid big <seed> <n> <out.txt>: cases with entries between 1e9 and 1e18 (beyond TLC's integers), one TLA+ record per
+            // line; the post-conditions of C12 are evaluated on them by Apalache over unbounded integers (spec/BigDistrib.tla.in)
+            let mut rng = Rng::new(args[2].parse().unwrap());
+            let cnt: u64 = args[3].parse().unwrap();
+            let mut out = std::io::BufWriter::new(std::fs::File::create(&args[4]).unwrap());
+            let big = |rng: &mut Rng, top: u128| -> u128 { ((rng.below(1_000_000_000) as u128) * 1_000_000_000 + rng.below(1_000_000_000) as u128) % top.max(1) };
+            for _ in 0..cnt {
+                let len = 1 + rng.below(9) as usize;
+                let top: u128 = *rng.pick(&[1_000_000_000u128, 1_000_000_000_000, 1_000_000_000_000_000, 1_000_000_000_000_000_000]);
+                let unit: u128 = top / 100;
+                let d: Vec<u128> = (0..len).map(|_| match rng.below(6) { 0 => 0, 1 => unit * (1 + rng.below(99) as u128), _ => big(&mut rng, top) }).collect();
+                let tot: u128 = d.iter().sum();
+                let amt: u128 = match rng.below(7) {
+                    0 => tot,
+                    1 => unit * (1 + rng.below(300) as u128),
+                    2 => (len as u128) * unit * (1 + rng.below(50) as u128) + 1,      // exact multiples of the list length, plus one
+                    3 => big(&mut rng, top * 3),
+                    _ => if tot > 0 { big(&mut rng, tot + 1) } else { big(&mut rng, top) },
+                };
+                writeln!(out, "{}", run_big(&d, amt)).unwrap();
+                n += 1;
+            }
+        }
+        "bigone" => {
+            // grid bigone <d1,d2,...> <amt> <out.txt>
+            let d: Vec<u128> = args[2].split(',').filter(|x| !x.is_empty()).map(|x| x.parse().unwrap()).collect();
+            let mut out = std::io::BufWriter::new(std::fs::File::create(&args[4]).unwrap());
+            writeln!(out, "{}", run_big(&d, args[3].parse().unwrap())).unwrap();
+            n += 1;
+        }
         _ => std::process::exit(2),
     }
     println!("{}", json!({"cases": n}));
+}
+
+fn run_big(d: &[u128], amt: u128) -> String {
+    let len = d.len();
+    let seq = |v: &[u128]| format!("<<{}>>", v.iter().map(|x| x.to_string()).collect::<Vec<_>>().join(", "));
+    {
+        {
+            {
+                let vals: Vec<ValidatorResponse> = d.iter().enumerate().map(|(i, x)| ValidatorResponse { total_delegated: Uint128::new(*x), address: format!("val{}", i + 1) }).collect();
+                let (dok, drem, dplan) = match std::panic::catch_unwind(|| calculate_delegations(Uint128::new(amt), &vals)) {
+                    Ok(Ok((rem, plan))) => (true, rem.u128(), plan.iter().map(|x| x.u128()).collect::<Vec<_>>()),
+                    _ => (false, amt, vec![0u128; len]),
+                };
+                let (tx, rx) = mpsc::channel();
+                let v2 = vals.clone();
+                std::thread::spawn(move || {
+                    let r = std::panic::catch_unwind(|| calculate_undelegations(Uint128::new(amt), v2));
+                    let _ = tx.send(r);
+                });
+                let (uok, ufuel, uplan) = match rx.recv_timeout(Duration::from_secs(5)) {
+                    Ok(Ok(Ok(plan))) => (true, true, plan.iter().map(|x| x.u128()).collect::<Vec<_>>()),
+                    Ok(_) => (false, true, vec![0u128; len]),
+                    Err(_) => (false, false, vec![0u128; len]),
+                };
+                let b = |x: bool| if x { "TRUE" } else { "FALSE" };
+                return format!("[d |-> {}, amt |-> {}, dok |-> {}, drem |-> {}, dplan |-> {}, uok |-> {}, ufuel |-> {}, uplan |-> {}]",
+                               seq(d), amt, b(dok), drem, seq(&dplan), b(uok), b(ufuel), seq(&uplan));
+            }
+        }
+    }
 }
